@@ -25,15 +25,15 @@ func init() { register("C06", C06) }
 
 // c06scn describes one shutdown scenario.
 type c06scn struct {
-	Idx     int    `json:"idx"`
-	Kind    string `json:"kind"`   // fini suspend cycle
-	EvFill  int    `json:"evfill"` // events sitting in the event queue
-	KeyFill int    `json:"keyfill"` // -1: main loop idle; >=0: main loop parked on a full event queue with this many chunks queued
-	Parked  bool   `json:"parked"` // reader parked on the send after a full chunk queue
-	Reader  string `json:"reader"` // read gate readerr
-	Conc    string `json:"conc"`   // none poller poster show resize
-	Sched   int64  `json:"sched"`  // 0: no perturbation; else seed of the schedule controller
-	DrainNil bool  `json:"drainnil"`
+	Idx      int    `json:"idx"`
+	Kind     string `json:"kind"`    // fini suspend cycle
+	EvFill   int    `json:"evfill"`  // events sitting in the event queue
+	KeyFill  int    `json:"keyfill"` // -1: main loop idle; >=0: main loop parked on a full event queue with this many chunks queued
+	Parked   bool   `json:"parked"`  // reader parked on the send after a full chunk queue
+	Reader   string `json:"reader"`  // read gate readerr
+	Conc     string `json:"conc"`    // none poller poster show resize
+	Sched    int64  `json:"sched"`   // 0: no perturbation; else seed of the schedule controller
+	DrainNil bool   `json:"drainnil"`
 }
 
 func (s c06scn) String() string {
@@ -42,13 +42,13 @@ func (s c06scn) String() string {
 }
 
 type c06res struct {
-	Idx      int      `json:"idx"`
-	Verdict  string   `json:"verdict"` // held violated inconclusive
-	Sig      string   `json:"sig,omitempty"`
-	What     string   `json:"what,omitempty"`
-	SchedSig string   `json:"schedsig,omitempty"`
-	Points   int      `json:"points"`
-	Abort    bool     `json:"abort,omitempty"` // the worker must be replaced (stuck goroutines left behind)
+	Idx      int    `json:"idx"`
+	Verdict  string `json:"verdict"` // held violated inconclusive
+	Sig      string `json:"sig,omitempty"`
+	What     string `json:"what,omitempty"`
+	SchedSig string `json:"schedsig,omitempty"`
+	Points   int    `json:"points"`
+	Abort    bool   `json:"abort,omitempty"` // the worker must be replaced (stuck goroutines left behind)
 }
 
 // ---------------------------------------------------------------------------
